@@ -1029,7 +1029,9 @@ func main() {
 		sort.Strings(r.pool)
 	}
 	// keys with a meaning of their own in YAML (merge key, null, booleans, numbers): foreign all the same
-	r.pool = append(r.pool, "<<", "~", "null", "true", "1", "=")
+	r.pool = append(r.pool, "<<", "~", "null", "true", "1", "=",
+		// a key written as ONE placeholder: not evaluated in these sections, a foreign key like any other
+		"${{ matrix.key }}", "${{ github.sha }}")
 
 	type input struct {
 		name string
